@@ -24,7 +24,7 @@ def gen_history(rng: random.Random, n_lo=5, n_hi=14, props=True, fails=True, gc=
         if r < 0.30:
             op = {"kind": "append", "tag": tag, "n": rng.randint(1, 2), "style": rng.choice(["records", "with", "explicit"])}
         elif r < 0.38:
-            op = {"kind": "multi", "tag": tag, "n": 1}
+            op = {"kind": "multi", "tag": tag, "n": 1, "parts": rng.choice([2, 3, 3, 4])}
         elif r < 0.52:
             op = {"kind": "delete_file", "tag": tag, "k": rng.randint(0, 5), "with_append": rng.random() < 0.35,
                   "slash": rng.random() < 0.6}
